@@ -1,0 +1,10 @@
+//go:build verif
+
+// Contracts for package internal, read by /verif/govc (never compiled into normal builds).
+
+package internal
+
+// Bprintf is three lines around bytes.Buffer and fmt.Fprintf; it is verified through its body at
+// every call site (the assumed contracts are those of bytes.NewBuffer, fmt.Fprintf and Buffer.Bytes).
+//@ func Bprintf
+//@   inline
